@@ -26,7 +26,7 @@ def _scalar_lookup(b, t):
     return not k.startswith("adt:") or bool(ty.get("dual")) or bool(ty.get("f64"))
 
 
-def _sequence(b, F=None, depth=0, members=frozenset()):
+def _sequence(b, F=None, depth=0, members=frozenset(), keep=frozenset()):
     """sequence of callee names, float-typed MIR operators and float constants (integer arithmetic, conversions,
     iterator plumbing and error plumbing are left out).  Calls of small private helpers of the same crate are replaced by
     the helper's own signature, so that extracting a repeated sub-expression into a helper in one clone only keeps the
@@ -54,9 +54,9 @@ def _sequence(b, F=None, depth=0, members=frozenset()):
             if n in PLUMBING:
                 continue
             cb = F.callee_body(t) if F is not None and depth < 2 else None
-            if cb is not None and not cb.is_closure() and cb.get("vis") != "Public" and len(cb.blocks) <= 12 \
-                    and cb.path.split("::")[0] == b.path.split("::")[0] and cb.path not in members and cb.path != b.path:
-                out.extend(_sequence(cb, F, depth + 1, members))
+            if cb is not None and not cb.is_closure() and cb.get("vis") != "Public" and len(cb.blocks) <= 400 \
+                    and cb.path.split("::")[0] == b.path.split("::")[0] and cb.path not in members and cb.path != b.path and n not in keep:
+                out.extend(_sequence(cb, F, depth + 1, members, keep))
                 continue
             if n and n not in IGN:
                 out.append(n)
@@ -71,18 +71,27 @@ PLUMBING = {"index", "index_mut", "map", "collect", "iter", "iter_mut", "into_it
             "range", "skip", "take", "outer_iter", "call", "call_mut", "call_once", "raw_dim", "dim", "shape", "nrows", "ncols", "is_empty"}
 
 
-def signature(b, F=None, depth=0, members=frozenset()):
+def signature(b, F=None, depth=0, members=frozenset(), keep=frozenset()):
     """multiset (sorted (item, count) pairs) of the arithmetic of a function: its own body, the closures written inside it
     (unless a closure is itself a member of a clone group) and the small private helpers it calls.  Order, the division into
     closures / helpers, array addressing and iterator plumbing are not part of it: `(0..n).map(|i| f(p[i])).collect()[0]`
     and `f(p[0])` carry the same arithmetic."""
     from collections import Counter
-    items = list(_sequence(b, F, depth, members))
+    items = list(_sequence(b, F, depth, members, keep))
     if F is not None:
         for c in F.bodies:
             if c.is_closure() and c.path.startswith(b.path + "::{closure#") and c.path not in members:
-                items += list(_sequence(c, F, depth, members))
+                items += list(_sequence(c, F, depth, members, keep))
     return tuple(sorted(Counter(items).items()))
+
+
+def _callee_names(b, F):
+    out = set()
+    for x in [b] + [c for c in F.bodies if c.is_closure() and c.path.startswith(b.path + "::{closure#")]:
+        for bi, t in x.calls():
+            if F.callee_body(t) is not None:
+                out.add(callee(t)[2])
+    return out
 
 
 def run(F, want=None):
@@ -95,10 +104,39 @@ def run(F, want=None):
         if want and not any(w in g["name"] for w in want):
             continue
         members = []
-        for suf in g["members"]:
-            bs = [b for b in F.bodies if b.path.endswith(suf)]
+        lost = []
+        found = [(suf, [b for b in F.bodies if b.path.endswith(suf)]) for suf in g["members"]]
+        # helpers that every member calls under the same name stay calls (their own differences are not this group's business);
+        # a helper that only some members call was extracted in those copies only and is replaced by its body
+        name_sets = [_callee_names(bs[0], F) for suf, bs in found if bs]
+        KEEP = frozenset(set.intersection(*name_sets)) if name_sets else frozenset()
+        for suf, bs in found:
             if bs:
-                members.append((suf, bs[0], signature(bs[0], F, 0, ALL_MEMBERS)))
+                members.append((suf, bs[0], signature(bs[0], F, 0, ALL_MEMBERS, KEEP)))
+            else:
+                lost.append(suf)
+        # a closure member is addressed by its index; removing another closure of the parent renumbers it: re-resolve a lost closure
+        # member to the closure of the same parent that carries the signature of the members that were found
+        for suf in lost:
+            if "::{closure#" not in suf or not members:
+                continue
+            parent_suf = suf.rsplit("::{closure#", 1)[0]
+            ref_sig = members[0][2]
+            cands = [c for c in F.bodies if c.is_closure() and c.path.rsplit("::{closure#", 1)[0].endswith(parent_suf)]
+            exact = [c for c in cands if signature(c, F, 0, ALL_MEMBERS, KEEP) == ref_sig]
+            pick = exact[:1]
+            if not pick and g.get("diff") is not None and len(g["members"]) == 2:
+                d0 = dict(ref_sig)
+                for c in cands:
+                    d1 = dict(signature(c, F, 0, ALL_MEMBERS, KEEP))
+                    now = sorted("%s:%+d" % (k_, d1.get(k_, 0) - d0.get(k_, 0)) for k_ in set(d0) | set(d1) if d0.get(k_, 0) != d1.get(k_, 0))
+                    inv = sorted("%s:%+d" % (k_, d0.get(k_, 0) - d1.get(k_, 0)) for k_ in set(d0) | set(d1) if d0.get(k_, 0) != d1.get(k_, 0))
+                    if now == sorted(g["diff"]) or inv == sorted(g["diff"]):
+                        pick = [c]
+            if pick:
+                entry = (suf, pick[0], signature(pick[0], F, 0, ALL_MEMBERS, KEEP))
+                # keep the table's member order (the reviewed difference is oriented)
+                members.insert(g["members"].index(suf) if g["members"].index(suf) <= len(members) else len(members), entry)
         iid = "clones|%s" % g["name"]
         if len(members) < 2:
             if F.config == "full":
@@ -118,7 +156,7 @@ def run(F, want=None):
                 for suf, b, s in members:
                     if s != major and "::{closure#" in suf:
                         parent = b.path.rsplit("::{closure#", 1)[0]
-                        alt = [c for c in F.bodies if c.path.startswith(parent + "::{closure#") and signature(c, F, 0, ALL_MEMBERS) == major]
+                        alt = [c for c in F.bodies if c.path.startswith(parent + "::{closure#") and signature(c, F, 0, ALL_MEMBERS, KEEP) == major]
                         if alt:
                             b, s = alt[0], major
                     fixed.append((suf, b, s))
